@@ -559,6 +559,8 @@ def check_valid(run: Run, prog: Program) -> None:
                 continue
             if not _two_sided(t.ast, derived):
                 continue
+            if not _exact_range_guard(at, t.ast):
+                continue
             t_side = cfg.reachable([m for m, lab in cfg.succ[t.id] if lab == "true"])
             if cfg.exit in t_side or n.id in t_side:
                 continue
@@ -579,6 +581,28 @@ def check_valid(run: Run, prog: Program) -> None:
                                for n, _ in reads)
     run.check(ok, "C09.VALID", at.qual, "if self._buffer.count_valid() == 0: raise IndexError",
               "a read is possible on an empty buffer", node=at.node, file=at.file)
+
+
+def _exact_range_guard(at: FuncInfo, test: ast.AST) -> bool:
+    """The guard must reject exactly what lies outside the covered range: for a datetime key
+    `key < oldest_timestamp or key > newest_timestamp`, for an index `key < -covered or key >= covered`
+    (covered = the buffer's count_covered()).  Anything weaker lets a position through that
+    normalises/wraps onto another slot."""
+    key = at.params[1]
+    c = canon_total(test)
+    dt_form = ("or", frozenset({("<", key, "self._buffer.oldest_timestamp"),
+                                ("<", "self._buffer.newest_timestamp", key)}))
+    if c == dt_form:
+        return True
+    if isinstance(c, tuple) and c[0] == "or" and len(c[1]) == 2:
+        # index form: resolve the local holding the covered count
+        locs = {u(s.targets[0]): u(s.value) for s in body_walk(at.node)
+                if isinstance(s, ast.Assign) and isinstance(s.targets[0], ast.Name)}
+        for name, val in locs.items():
+            if val.replace(" ", "") in ("self._buffer.count_covered()", "self.count_covered()", "len(self)"):
+                if c == ("or", frozenset({("<", key, f"-{name}"), ("<=", name, key)})):
+                    return True
+    return False
 
 
 def _two_sided(test: ast.AST, names: set[str]) -> bool:
@@ -612,7 +636,89 @@ def _two_sided(test: ast.AST, names: set[str]) -> bool:
     return isinstance(c, tuple) and c[0] == "or"
 
 
+def check_gaps(run: Run, prog: Program) -> None:
+    """C09.GAP: forward jumps mark every skipped slot; gap filling writes only inside the window."""
+    fn = prog.func(f"{BUF}:OrderedRingBuffer._update_gaps")
+    run.analysed(fn.qual)
+    cfg = CFG(fn.node, fn.file)
+    ts, newest = fn.params[1], fn.params[2]
+    first_unwritten = {f"{newest}+self._sampling_period", f"self._sampling_period+{newest}"}
+    allowed = first_unwritten | {f"min({newest}+self._sampling_period,{ts})", f"min({ts},{newest}+self._sampling_period)",
+                                 "self._timestamp_oldest"}
+    defs = {u(s.targets[0]): s.value for s in body_walk(fn.node)
+            if isinstance(s, ast.Assign) and isinstance(s.targets[0], ast.Name)}
+    n = 0
+    for node in cfg.nodes:
+        if node.kind != "stmt" or node.ast is None:
+            continue
+        for c in find_calls(node.ast, lambda c: u(c.func) == "Gap"):
+            n += 1
+            kws = {k.arg: k.value for k in c.keywords}
+            start = kws.get("start") or (c.args[0] if c.args else None)
+            if start is None:
+                raise AnalysisError(f"{fn.qual}: Gap(...) without start")
+            sv = defs.get(u(start), start) if isinstance(start, ast.Name) else start
+            text = u(sv).replace(" ", "")
+            ok = text in allowed
+            if not ok and text == ts:
+                # allowed when a dominating test establishes ts <= newest + period (no slot is skipped)
+                for t in cfg.nodes:
+                    if t.kind == "test" and t.ast is not None:
+                        ct = canon_total(t.ast)
+                        lim = f"{newest} + self._sampling_period"
+                        if ct == ("<", lim, ts) and cfg.path(cfg.entry, [node.id], avoid=[t.id]) is None and \
+                                node.id not in cfg.reachable([m for m, lab in cfg.succ[t.id] if lab == "true"]):
+                            ok = True
+            run.check(ok, "C09.GAP", fn.qual, c,
+                      f"a gap recorded by update() starts at `{u(sv)}`: when the new sample jumps ahead of "
+                      f"`{newest} + period`, the skipped (never written) slots before it are not marked as "
+                      "missing, so count_valid/gaps/window() treat evicted data as valid", node=c, file=fn.file,
+                      instance=f"{fn.qual}: {u(c)[:60]} starts no later than the first unwritten slot")
+    if n < 3:
+        raise AnalysisError(f"{fn.qual}: only {n} Gap constructions found")
+    # every non-returning path of a *missing* sample that is not already inside a gap records one
+    # (structure of the branch on record_as_missing): the missing branch must construct a Gap
+    miss = [t for t in cfg.nodes if t.kind == "test" and t.ast is not None and u(t.ast) == fn.params[3]]
+    ok = bool(miss) and all(any(find_calls(cfg.nodes[x].ast, lambda c: u(c.func) == "Gap")
+                                for x in cfg.reachable([m for m, lab in cfg.succ[t.id] if lab == "true"])
+                                if cfg.nodes[x].ast is not None and cfg.nodes[x].kind == "stmt") for t in miss)
+    run.check(ok, "C09.GAP", fn.qual, "missing sample -> gap recorded", "a missing (None/NaN) sample is not "
+              "recorded as a gap", node=fn.node, file=fn.file)
+    # _fill_gaps writes only inside [0, len(data)]
+    fg = prog.func(f"{BUF}:OrderedRingBuffer._fill_gaps")
+    run.analysed(fg.qual)
+    data = fg.params[1]
+    stores = [s for s in body_walk(fg.node) if isinstance(s, ast.Assign) and isinstance(s.targets[0], ast.Subscript)
+              and u(s.targets[0].value) == data and isinstance(s.targets[0].slice, ast.Slice)]
+    if len(stores) < 2:
+        raise AnalysisError(f"{fg.qual}: slice assignments into the window not found")
+    assigns = [s for s in body_walk(fg.node) if isinstance(s, ast.Assign) and isinstance(s.targets[0], ast.Name)]
+    for st in stores:
+        sl = st.targets[0].slice  # type: ignore[union-attr]
+        lo, hi = u(sl.lower), u(sl.upper)
+        lo_ok = any(u(a.targets[0]) == lo and u(a.value).replace(" ", "") in (f"max({lo},0)", f"max(0,{lo})") for a in assigns)
+        hi_ok = any(u(a.targets[0]) == hi and u(a.value).replace(" ", "") in (f"min({hi},len({data}))", f"min(len({data}),{hi})")
+                    for a in assigns)
+        # the clamp is the last definition before the store
+        def last_def(name: str) -> str:
+            d = [a for a in assigns if u(a.targets[0]) == name and a.lineno < st.lineno]
+            return u(d[-1].value).replace(" ", "") if d else ""
+        lo_ok = lo_ok and last_def(lo) in (f"max({lo},0)", f"max(0,{lo})")
+        hi_ok = hi_ok and last_def(hi) in (f"min({hi},len({data}))", f"min(len({data}),{hi})")
+        run.check(lo_ok and hi_ok, "C09.GAP", fg.qual, st,
+                  f"the fill writes `{data}[{lo}:{hi}]` without both indices clamped into [0, len({data})]: "
+                  "a slice assignment past the end of a list *extends* it, so a window query returns more "
+                  "slots than it spans (and list/numpy containers disagree)", node=st, file=fg.file)
+
+
 CONTROLS = [
+    ("missing sample records only its own slot", BUF,
+     "                start_gap = min(newest + self._sampling_period, timestamp)\n", "                start_gap = timestamp\n", "C09.GAP"),
+    ("fill clamp uses the capacity", BUF, "            end_index = min(end_index, len(data))\n",
+     "            end_index = min(end_index, self.maxlen)\n", "C09.GAP"),
+    ("datetime upper check relaxed by one period", MW,
+     "                or key > self._buffer.newest_timestamp\n",
+     "                or key >= self._buffer.newest_timestamp + self._buffer.sampling_period\n", "C09.VALID"),
     ("Gap built from the un-normalised sample timestamp", BUF,
      "self._update_gaps(timestamp, prev_newest, not self.has_value(sample))",
      "self._update_gaps(sample.timestamp, prev_newest, not self.has_value(sample))", "C09.NORM"),
@@ -639,6 +745,7 @@ def _control_too_old(src: str) -> str | None:
 def run_rules(run: Run, prog: Program) -> None:
     check_norm(run, prog)
     check_valid(run, prog)
+    check_gaps(run, prog)
 
 
 def check(run: Run, prog: Program, tier: str) -> str:
@@ -648,9 +755,12 @@ def check(run: Run, prog: Program, tier: str) -> str:
     run.rule("C09.VALID", "update() rejects too-old timestamps before any mutation; window() clamps "
              "both ends and checks emptiness before computing slot indices and fills gaps before "
              "returning; MovingWindow.at guards every buffer read with a two-sided range check")
+    run.rule("C09.GAP", "every gap recorded by update() starts no later than the first unwritten slot; a "
+             "missing sample records a gap; _fill_gaps writes only inside [0, len(window)]")
     run_rules(run, prog)
     run.floor("C09.NORM", 12)
     run.floor("C09.VALID", 10)
+    run.floor("C09.GAP", 6)
     from ..engine.controls import run_controls
 
     run_controls(run, CONTROLS, run_rules, tier)
